@@ -245,16 +245,17 @@ Section Containers.
   (** a single normal path component ([plain_name] of layer.rs, fixes 8d15b4b / 59e280a) *)
   Definition plain_name (p : str) : bool :=
     negb (isnil p) && negb (memb 47%N p) && negb (str_eqb p [DOT]) && negb (str_eqb p [DOT; DOT]).
-  (** the checks of [LayerContents::load] on layercontents.plist (fix 83f6c18: names unique,
-      directories unique — compared exactly —, "public.default" only in "glyphs") and of
-      [Layer::load_impl] on contents.plist (fix afd801a: file names plain and unique, exactly) *)
+  (** the checks of [LayerContents::load] on layercontents.plist (fixes 83f6c18, f6784f0: names
+      unique, directories unique ignoring case, "public.default" only in "glyphs") and of
+      [Layer::load_impl] on contents.plist (fixes afd801a, f6784f0: file names plain and unique
+      ignoring case) *)
   Definition dlayer_files_ok (d : dlayer) : bool :=
     bool_decide (map_Forall (fun _ f => plain_name f = true) d.2) &&
-    bool_decide (NoDup (map_to_list d.2).*2).
+    bool_decide (NoDup ((fun kv : str * str => lower kv.2) <$> map_to_list d.2)).
   Definition disk_checked (d : disk) : bool :=
     forallb (fun x => plain_name x.1.2) d &&
     bool_decide (NoDup ((fun x : dlayer => x.1.1) <$> d)) &&
-    bool_decide (NoDup ((fun x : dlayer => x.1.2) <$> d)) &&
+    bool_decide (NoDup ((fun x : dlayer => lower x.1.2) <$> d)) &&
     forallb (fun x : dlayer => negb (bool_decide (x.1.1 = DEFAULT_LAYER_NAME)) ||
                                bool_decide (x.1.2 = DEFAULT_GLYPHS_DIRNAME)) d &&
     forallb dlayer_files_ok d.
@@ -358,13 +359,6 @@ Section Containers.
   Definition report (s : state) : list (str * str * gset str * gmap str str) :=
     (fun l => (l_name l, l_path l, dom (l_glyphs l), l_contents l)) <$> layers s.
 
-  (** what loading does not check: directories, and glif file names within a layer, that are
-      equal ignoring case (known finding load-case-clash) *)
-  Definition wf_disk (d : disk) : Prop :=
-    NoDup ((fun x => lower x.1.2) <$> d) /\
-    (forall x g1 g2 q1 q2, x ∈ d -> x.2 !! g1 = Some q1 -> x.2 !! g2 = Some q2 ->
-                           lower q1 = lower q2 -> g1 = g2).
-
   (** C07, container level *)
   Definition glyph_path (s : state) (ln g : str) : option str :=
     match get_layer s ln with Some l => l_contents l !! g | None => None end.
@@ -390,6 +384,13 @@ Section Containers.
     (forall g q, l_contents l !! g = Some q -> plain_name q = true) /\
     (l_path l = DEFAULT_GLYPHS_DIRNAME \/ plain_name (l_path l) = true).
   Definition Plain (s : state) : Prop := Forall plain_layer (layers s).
+
+  (** no other directory equals the default layer's "glyphs" ignoring case (the taken-set does
+      not hold "glyphs"; loading compares it like every other directory) *)
+  Definition sep_layer (l : layer) : Prop :=
+    (forall g q, l_contents l !! g = Some q -> True) /\
+    (l_path l = DEFAULT_GLYPHS_DIRNAME \/ lower (l_path l) <> lower DEFAULT_GLYPHS_DIRNAME).
+  Definition Sep (s : state) : Prop := Forall sep_layer (layers s).
 
   (** the operation may change the file name of glyph [g] in layer [ln] / the directory of
       layer [ln]: it names them (or clears / filters / replaces their container) *)
